@@ -670,6 +670,14 @@ int main(int argc, char** argv) {
         regs.push_back({"func2:G", 'G', G4, 2, 2, true, false, 1, {}});
         regs.push_back({"func2:F", 'F', F5, 2, 2, true, false, 1, Fsets});
     }
+    // directly nested unary minus signs: -(-X), -(-(X+1)), (-(-X)) ... as operands of every chain with <= 1 (thorough: 2) operators, with and
+    // without a further leading minus / parenthesis pair (signs must compose: an even number of negations is the identity)
+    {
+        const std::vector<Toks> Wneg{{"WOPR"}, {"0.5"}, {"(", "-", "WOPR", ")"}, {"(", "-", "(", "-", "WOPR", ")", ")"}, {"(", "-", "(", "-", "(", "-", "WWPR", ")", ")", ")"}, {"(", "-", "(", "-", "ABS", "(", "WOPR", ")", ")", ")"}, {"(", "-", "(", "-", "(", "WOPR", "+", "1", ")", ")", ")"}, {"(", "-", "(", "-", "WOPR", "*", "2", ")", ")"}};
+        const std::vector<Toks> Fneg{{"FOPR"}, {"2"}, {"(", "-", "FOPR", ")"}, {"(", "-", "(", "-", "FOPR", ")", ")"}, {"(", "-", "(", "-", "(", "-", "3", ")", ")", ")"}, {"(", "-", "(", "-", "(", "FOPR", "+", "1", ")", ")", ")"}};
+        regs.push_back({"negnest:W", 'W', Wneg, 0, run.thorough() ? 2 : 1, true, true, 0, {}});
+        regs.push_back({"negnest:F", 'F', Fneg, 0, run.thorough() ? 2 : 1, true, true, 0, {}});
+    }
     const char* only = std::getenv("C17_ONLY");                 // development aid: run one regime
     for (auto& g : regs) { if (only && std::string(g.name) != only) continue; run_regime(g); if (run.timed_out()) break; }
     run.count("structures", run.shard == 0 ? (long long)g_structs : 0);
